@@ -295,6 +295,11 @@ func c13Tree(rng *rand.Rand, depth int, budget *int) *c13Node {
 			}
 			n.khdr = append(n.khdr, w)
 		}
+		if n.kind == 2 && len(n.kids) > 0 && rng.Intn(5) == 0 {
+			n.kids = append(n.kids, n.kids[rng.Intn(len(n.kids))]) // an element twice (REMOVE_VAL: the first match only)
+			*budget--
+			continue
+		}
 		n.kids = append(n.kids, c13Tree(rng, depth-1, budget))
 	}
 	return n
@@ -756,6 +761,9 @@ func c13Gen(rng *rand.Rand, tier string, w *bufio.Writer) {
 		"ap 81a1749281a16101a161 - rmval:74:de0001a16101",                      // container value with a non-minimal header
 		"ap 81a17490 - app:745b5d:dc000101 rmval:74:9101",                      // spliced non-minimal array, removed by its canonical form
 		"ap 81a17490 - app:745b5d:9101 rmval:74:9101",
+		"ap 81a17493010201 - rmval:74:01",                                       // the FIRST match only: [1,2,1] → [2,1]
+		"ap 81a174949101029101a161 - rmval:74:9101 rmat:745b325d:",              // … containers too; the second [1] is still there at t[1]
+		"pf b:c70081a17493010201 0 - - - rmval:74:01",
 		"ap 80 - set:78:81a16101 set:782e61:02",                                // into a value SET earlier in the same patch
 		"ap 80 - app:745b5d:9101 app:745b305d5b5d:02",                          // into an array APPENDed earlier
 		"ap 80 - merge:6d:81a16181a16201 inc:6d2e612e62:01",                    // into a MERGEd field value
